@@ -121,16 +121,34 @@ RUNNER_HEAD = r'''
 #include <sys/wait.h>
 #include "%(cfile)s"
 
-static char obuf[1 << 22]; static size_t on;
-static void oflush(void) { size_t o = 0; while (o < on) { ssize_t r = write(1, obuf + o, on - o); if (r <= 0) break; o += (size_t) r; } on = 0; }
+/* per-context platform state: two independent instances (C17 runs two contexts interleaved) */
+struct plat {
+	struct %(sctx)s sctx_;
+	uint64_t clk_; uint64_t incs_[4096]; unsigned nincs_, iinc_;
+	int fulls_[4096]; unsigned nfulls_, ifull_;
+	unsigned toggles_[4096][2]; unsigned ntoggles_;
+	unsigned setbufs_[1024][2]; unsigned nsetbufs_;
+	unsigned cbseq_, closecount_, opencount_;
+	char *openargs_[256]; unsigned nopenargs_;
+	uint8_t *cur_buf_; size_t cur_size_;
+	char *obuf_; size_t on_;
+};
+static struct plat PL[2]; static struct plat *P = &PL[0];
+static int multi;
+#define OBUFSZ (1 << 22)
+#define obuf (P->obuf_)
+#define on (P->on_)
+static void oflush1(struct plat *q) { size_t o = 0; while (o < q->on_) { ssize_t r = write(1, q->obuf_ + o, q->on_ - o); if (r <= 0) break; o += (size_t) r; } q->on_ = 0; }
+static void oflush(void) { if (multi) { const char m[] = "CTX 0\n", m2[] = "CTX 1\n"; if (write(1, m, 6)) {} oflush1(&PL[0]); if (write(1, m2, 6)) {} oflush1(&PL[1]); } else oflush1(P); }
 static void oprintf(const char *fmt, ...) {
 	va_list ap; int r;
-	if (on > sizeof(obuf) - 70000) oflush();
-	va_start(ap, fmt); r = vsnprintf(obuf + on, sizeof(obuf) - on, fmt, ap); va_end(ap);
+	if (!obuf) { obuf = (char *) malloc(OBUFSZ); on = 0; }
+	if (on > OBUFSZ - 70000) { if (!multi) oflush1(P); else return; }
+	va_start(ap, fmt); r = vsnprintf(obuf + on, OBUFSZ - on, fmt, ap); va_end(ap);
 	if (r > 0) on += (size_t) r;
 }
-static void on_segv(int sig) { (void) sig; oflush(); { const char m[] = "oob\n"; if (write(1, m, 4)) {} } _exit(0); }
-static void on_abrt(int sig) { (void) sig; oflush(); { const char m[] = "assert\n"; if (write(1, m, 7)) {} } _exit(0); }
+static void on_segv(int sig) { (void) sig; oprintf("oob\n"); oflush(); _exit(0); }
+static void on_abrt(int sig) { (void) sig; oprintf("assert\n"); oflush(); _exit(0); }
 
 /* arena for argument data */
 static unsigned char arena[1 << 22]; static size_t arena_n;
@@ -146,7 +164,8 @@ static int hv(int c) { return c <= '9' ? c - '0' : c - 'a' + 10; }
 static const char *next_str(void) { char *t = next_tok(); size_t n, i; char *d; if (*t == 's') t++; n = strlen(t) / 2; d = (char *) arena_alloc(n + 1); for (i = 0; i < n; i++) d[i] = (char) (hv(t[2*i]) * 16 + hv(t[2*i+1])); d[n] = 0; return d; }
 
 /* guard-paged packet buffer, flush against the upper guard page */
-static uint8_t *cur_buf; static size_t cur_size;
+#define cur_buf (P->cur_buf_)
+#define cur_size (P->cur_size_)
 static uint8_t *alloc_buf(size_t n) {
 	size_t pg = 4096, data = ((n + pg - 1) / pg + 1) * pg;
 	uint8_t *m = (uint8_t *) mmap(NULL, data + 2 * pg, PROT_NONE, MAP_PRIVATE | MAP_ANONYMOUS, -1, 0);
@@ -156,17 +175,28 @@ static uint8_t *alloc_buf(size_t n) {
 	return cur_buf;
 }
 
-static struct %(sctx)s sctx;
+#define sctx (P->sctx_)
 #define CTX (&sctx.parent)
-static uint64_t clk; static uint64_t incs[4096]; static unsigned nincs, iinc;
-static int fulls[4096]; static unsigned nfulls, ifull;
-static unsigned toggles[4096][2]; static unsigned ntoggles;
-static unsigned setbufs[1024][2]; static unsigned nsetbufs;
-static unsigned cbseq, closecount, opencount;
-static char *openargs[256]; static unsigned nopenargs;
+#define clk (P->clk_)
+#define incs (P->incs_)
+#define nincs (P->nincs_)
+#define iinc (P->iinc_)
+#define fulls (P->fulls_)
+#define nfulls (P->nfulls_)
+#define ifull (P->ifull_)
+#define toggles (P->toggles_)
+#define ntoggles (P->ntoggles_)
+#define setbufs (P->setbufs_)
+#define nsetbufs (P->nsetbufs_)
+#define cbseq (P->cbseq_)
+#define closecount (P->closecount_)
+#define opencount (P->opencount_)
+#define openargs (P->openargs_)
+#define nopenargs (P->nopenargs_)
 
 static void cb_enter(const char *kind) {
-	unsigned i, seq = cbseq++;
+	unsigned i, seq;
+	seq = cbseq++;
 	oprintf("cb %%s %%u f=%%d o=%%d\n", kind, seq, %(p)sis_in_tracing_section(CTX), %(p)spacket_is_open(CTX));
 	for (i = 0; i < ntoggles; i++) if (toggles[i][0] == seq) { %(p)senable_tracing(CTX, (int) toggles[i][1]); break; }
 }
@@ -174,14 +204,14 @@ static void cb_enter(const char *kind) {
 
 RUNNER_TAIL = r'''
 static int cb_full(void *data) {
-	int a; (void) data;
+	int a; if (data) P = (struct plat *) data;
 	cb_enter("full");
 	a = ifull < nfulls ? fulls[ifull++] : 0;
 	oprintf("cx full f=%%d\n", %(p)sis_in_tracing_section(CTX));
 	return a;
 }
 static void cb_open(void *data) {
-	char line[1 << 16]; (void) data;
+	char line[1 << 16]; if (data) P = (struct plat *) data;
 	cb_enter("open");
 	line[0] = 0;
 	if (nopenargs) { strncpy(line, openargs[opencount %% nopenargs], sizeof(line) - 1); line[sizeof(line) - 1] = 0; }
@@ -191,7 +221,8 @@ static void cb_open(void *data) {
 	oprintf("cx open f=%%d\n", %(p)sis_in_tracing_section(CTX));
 }
 static void cb_close(void *data) {
-	unsigned i, k = closecount++; int wasopen; size_t j; (void) data;
+	unsigned i, k; int wasopen; size_t j; if (data) P = (struct plat *) data;
+	k = closecount++;
 	cb_enter("close");
 	wasopen = %(p)spacket_is_open(CTX);
 	%(p)s%(dst)s_close_packet(&sctx);
@@ -215,13 +246,15 @@ static unsigned parse_list(char *s, uint64_t *out, unsigned max) { unsigned n, i
 static void run_history(char **lines, unsigned nl) {
 	unsigned li; struct %(p)splatform_callbacks cbs; uint64_t tmp[8192]; unsigned n, i;
 	signal(SIGSEGV, on_segv); signal(SIGBUS, on_segv); signal(SIGABRT, on_abrt);
-	memset(&sctx, 0, sizeof(sctx)); memset(&cbs, 0, sizeof(cbs));
+	memset(&cbs, 0, sizeof(cbs));
 	cbs.is_backend_full = cb_full; cbs.open_packet = cb_open; cbs.close_packet = cb_close;
 %(setclocks)s
 	for (li = 0; li < nl; li++) {
 		char *l = lines[li];
+		if (l[0] == 'M') { multi = 1; continue; }
+		if (multi) { P = &PL[l[0] - '0']; l += 2; }
 		switch (l[0]) {
-		case 'H': lp = l + 1; n = (unsigned) next_num(); %(p)sinit(&sctx, alloc_buf(n), (uint32_t) n, cbs, NULL); break;
+		case 'H': lp = l + 1; n = (unsigned) next_num(); %(p)sinit(&sctx, alloc_buf(n), (uint32_t) n, cbs, P); break;
 		case 'I': nincs = parse_list(l + 1, incs, 4096); break;
 		case 'F': n = parse_list(l + 1, tmp, 4096); for (i = 0; i < n; i++) fulls[i] = (int) tmp[i]; nfulls = n; break;
 		case 'T': n = parse_list(l + 1, tmp, 8192); for (i = 0; i + 1 < n; i += 2) { toggles[i/2][0] = (unsigned) tmp[i]; toggles[i/2][1] = (unsigned) tmp[i+1]; } ntoggles = n / 2; break;
@@ -298,7 +331,7 @@ def build_runner(cfg, ir, dst_name, workdir, extra_cflags=(), tag='runner'):
     for name, c in sorted(clocks.items()):
         ct = ('' if not c['s'] else '') + ('u' if not c['s'] else '') + f'int{c["w"]}_t'
         clk_code.append(f'''static {ct} cb_clock_{name}(void *data) {{
-	uint64_t inc; {ct} v; (void) data;
+	uint64_t inc; {ct} v; if (data) P = (struct plat *) data;
 	cb_enter("clock");
 	inc = iinc < nincs ? incs[iinc++] : 1;
 	clk += inc; v = ({ct}) clk;
